@@ -265,7 +265,8 @@ class TickRateAttribute:
   _TICK_RATE_RE = re.compile(r"(\d+)")
 
   @staticmethod
-  def extract(ttml_element) -> int:
+  def extract(ttml_element) -> typing.Optional[int]:
+    '''Returns the value of the attribute, or `None` if it is absent or invalid'''
 
     tr = ttml_element.attrib.get(TickRateAttribute.qn)
 
@@ -279,9 +280,7 @@ class TickRateAttribute:
 
       LOGGER.error("ttp:tickRate invalid syntax")
 
-    # default value
-
-    return 1
+    return None
 
 class AspectRatioAttribute:
   '''ittp:aspectRatio attribute
@@ -367,6 +366,16 @@ class FrameRateAttribute:
   _FRAME_RATE_MULT_RE = re.compile(r"(\d+) (\d+)")
 
   @staticmethod
+  def is_specified(ttml_element) -> bool:
+    '''Returns whether a valid ttp:frameRate attribute is present'''
+
+    fr_raw = ttml_element.attrib.get(FrameRateAttribute.frame_rate_qn)
+
+    m = FrameRateAttribute._FRAME_RATE_RE.fullmatch(fr_raw) if fr_raw is not None else None
+
+    return m is not None and int(m.group(1)) > 0
+
+  @staticmethod
   def extract(ttml_element) -> Fraction:
 
     # process ttp:frameRate
@@ -428,7 +437,7 @@ class FrameRateAttribute:
 @dataclass
 class TemporalAttributeParsingContext:
   frame_rate: Fraction = Fraction(30, 1)
-  tick_rate: int = 1
+  tick_rate: typing.Union[int, Fraction] = 1
 
 class TimeExpressionSyntaxEnum(Enum):
   """IMSC time expression configuration values"""
